@@ -60,6 +60,11 @@ class Bag(object):
                 result[entity.__name__][pk] = d
         bag.dicts.clear()
         return result
+    def _process_related_object(bag, obj):
+        entity = obj.__class__
+        if obj in bag.objects.get(entity, ()): return  # was put into the bag: to_dict() processes it in full
+        if obj in bag.dicts[entity]: return
+        bag._process_object(obj, process_related=False)
     def _process_object(bag, obj, process_related=True):
         entity = obj.__class__
         try: attrs, related_objects = bag.entity_configs[entity]
@@ -73,15 +78,14 @@ class Bag(object):
                     continue
                 if process_related_objects:
                     for related_obj in value:
-                        if related_obj not in bag.dicts:
-                            bag._process_object(related_obj, process_related=False)
+                        bag._process_related_object(related_obj)
                 if attr.reverse.entity._pk_is_composite_:
                     value = sorted(bag._reduce_composite_pk(item._get_raw_pkval_()) for item in value)
                 else: value = sorted(item._get_raw_pkval_()[0] for item in value)
             elif attr.is_relation:
                 if value is not None:
                     if process_related_objects:
-                        bag._process_object(value, process_related=False)
+                        bag._process_related_object(value)
                     value = value._get_raw_pkval_()
                     if len(value) == 1: value = value[0]
             d[attr.name] = value
